@@ -66,7 +66,8 @@ RdPts(b, pos, le, n, acc) == IF n = 0 THEN [ok |-> TRUE, v |-> acc, pos |-> pos]
 RdCounted(b, pos, le) ==      \* count word followed by that many points (the count must be coverable by the data)
    IF ~Avail(b, pos, 4) THEN Fail
    ELSE LET n == Word(b, pos, le) IN
-        IF n < 0 \/ ~Avail(b, pos + 4, 16 * n) THEN Fail ELSE RdPts(b, pos + 4, le, n, <<>>)
+        \* n points need 16*n bytes: compared by division so that counts near 2^28 do not overflow
+        IF n < 0 \/ n > (Len(b) - (pos + 3)) \div 16 THEN Fail ELSE RdPts(b, pos + 4, le, n, <<>>)
 RECURSIVE RdRings(_,_,_,_,_)
 RdRings(b, pos, le, n, acc) == IF n = 0 THEN [ok |-> TRUE, v |-> acc, pos |-> pos]
                                ELSE LET r == RdCounted(b, pos, le) IN IF ~r.ok THEN Fail ELSE RdRings(b, r.pos, le, n - 1, Append(acc, r.v))
@@ -78,13 +79,17 @@ RdHdr(b, pos) ==
         IN IF ~flag THEN [ok |-> TRUE, le |-> le, code |-> be[4], hi |-> <<be[1], be[2], be[3]>>, srid |-> 0, pos |-> pos + 5]
            ELSE IF ~Avail(b, pos + 5, 4) THEN Fail
            ELSE [ok |-> TRUE, le |-> le, code |-> be[4], hi |-> <<be[1] - 32, be[2], be[3]>>, srid |-> Word(b, pos + 5, le), pos |-> pos + 9]
-RECURSIVE RdGeom(_,_,_)
+RECURSIVE RdGeom(_,_,_,_)
 RECURSIVE RdMembers(_,_,_,_,_,_)
-\* want = 0: any kind; otherwise the member must have exactly this type code (members of multi-geometries)
-RdGeom(b, pos, want) ==
+\* want = 0: any kind; otherwise the member must have exactly this type code (members of multi-geometries).
+\* strict: the type word must be exactly a code 1..7 (plus the EWKB flag); lenient: only the low four bits count
+\* (as the byte-slice decoder masks them), every other bit of the word is ignored.
+CodeOf(h, strict) == IF strict THEN h.code ELSE h.code % 16
+HeaderOk(h, strict) == h.ok /\ (strict => h.hi = <<0, 0, 0>>) /\ CodeOf(h, strict) \in 1..7
+RdGeom(b, pos, want, strict) ==
    LET h == RdHdr(b, pos) IN
-   IF ~h.ok \/ h.hi # <<0, 0, 0>> \/ h.code \notin 1..7 \/ (want # 0 /\ h.code # want) THEN Fail
-   ELSE LET k == KindOf(h.code) IN
+   IF ~HeaderOk(h, strict) \/ (want # 0 /\ CodeOf(h, strict) # want) THEN Fail
+   ELSE LET k == KindOf(CodeOf(h, strict)) IN
         IF k = "Point" THEN LET p == RdPt(b, h.pos, h.le) IN
                             IF ~p.ok THEN Fail ELSE [ok |-> TRUE, v |-> [t |-> k, c |-> p.v], srid |-> h.srid, pos |-> p.pos]
         ELSE IF k = "LineString" THEN LET r == RdCounted(b, h.pos, h.le) IN
@@ -95,14 +100,17 @@ RdGeom(b, pos, want) ==
              ELSE IF k = "Polygon" THEN LET r == RdRings(b, h.pos + 4, h.le, n, <<>>) IN
                             IF ~r.ok THEN Fail ELSE [ok |-> TRUE, v |-> [t |-> k, c |-> r.v], srid |-> h.srid, pos |-> r.pos]
              ELSE LET m == RdMembers(b, h.pos + 4, n, IF k = "MultiPoint" THEN 1 ELSE IF k = "MultiLineString" THEN 2
-                                                       ELSE IF k = "MultiPolygon" THEN 3 ELSE 0, <<>>, 0) IN
+                                                       ELSE IF k = "MultiPolygon" THEN 3 ELSE 0, <<>>, strict) IN
                   IF ~m.ok THEN Fail
                   ELSE IF k = "Collection" THEN [ok |-> TRUE, v |-> [t |-> k, g |-> m.v], srid |-> h.srid, pos |-> m.pos]
                   ELSE [ok |-> TRUE, v |-> [t |-> k, c |-> [i \in 1..Len(m.v) |-> m.v[i].c]], srid |-> h.srid, pos |-> m.pos]
-RdMembers(b, pos, n, want, acc, dummy) ==
+RdMembers(b, pos, n, want, acc, strict) ==
    IF n = 0 THEN [ok |-> TRUE, v |-> acc, pos |-> pos]
-   ELSE LET g == RdGeom(b, pos, want) IN IF ~g.ok THEN Fail ELSE RdMembers(b, g.pos, n - 1, want, Append(acc, g.v), 0)
-Dec(b) == RdGeom(b, 1, 0)
+   ELSE LET g == RdGeom(b, pos, want, strict) IN IF ~g.ok THEN Fail ELSE RdMembers(b, g.pos, n - 1, want, Append(acc, g.v), strict)
+Dec(b) == RdGeom(b, 1, 0, TRUE)
+\* the lenient reading fails only for structural reasons: bad byte order, no usable type code, truncation, or an
+\* element count the remaining bytes cannot hold
+DecLenient(b) == RdGeom(b, 1, 0, FALSE)
 
 \* a decoded value with coordinates mapped back to ids through the table (for comparison with the input)
 IdOf(tab, bytes) == CHOOSE id \in DOMAIN tab : tab[id] = bytes
